@@ -281,3 +281,123 @@ pub fn c19(args: &[Val]) -> Val {
     }
     c("c19", v)
 }
+
+fn pair_byte<T>(a: &[u8], b_: &[u8], bad: &mut Vec<Val>, tag: &str) -> (bool, core::cmp::Ordering)
+where
+    T: for<'enc> Encoding<'enc>,
+{
+    use core::cmp::Ordering;
+    let (pa, pb) = (Path::<T>::new(a), Path::<T>::new(b_));
+    let eq0 = pa == pb;
+    let ord0 = pa.cmp(pb);
+    let heq0 = feed(pa) == feed(pb);
+    let mut chk = |name: &str, eq: bool, ord: Option<Ordering>, heq: Option<bool>| {
+        if eq != eq0 || ord.map(|o| o != ord0).unwrap_or(false) || heq.map(|h| h != heq0).unwrap_or(false) {
+            bad.push(c(&format!("{}.{}", tag, name), vec![]));
+        }
+    };
+    let (ba, bb) = (pa.to_path_buf(), pb.to_path_buf());
+    chk("pathbuf", ba == bb, Some(ba.cmp(&bb)), Some(feed(&ba) == feed(&bb)));
+    chk("pathbuf_ne", !(ba != bb), ba.partial_cmp(&bb), None);
+    chk("path_partial", !(pa != pb), pa.partial_cmp(pb), None);
+    let (xa, xb): (Box<Path<T>>, Box<Path<T>>) = (Box::from(pa), Box::from(pb));
+    chk("box", xa == xb, Some(xa.cmp(&xb)), Some(feed(&xa) == feed(&xb)));
+    let (ra, rb): (Rc<Path<T>>, Rc<Path<T>>) = (Rc::from(pa), Rc::from(pb));
+    chk("rc", ra == rb, Some(ra.cmp(&rb)), Some(feed(&ra) == feed(&rb)));
+    let (aa, ab): (Arc<Path<T>>, Arc<Path<T>>) = (Arc::from(pa), Arc::from(pb));
+    chk("arc", aa == ab, Some(aa.cmp(&ab)), Some(feed(&aa) == feed(&ab)));
+    let (ca, cb): (Cow<Path<T>>, Cow<Path<T>>) = (Cow::from(pa), Cow::from(bb.clone()));
+    chk("cow", ca == cb, Some(ca.cmp(&cb)), Some(feed(&ca) == feed(&cb)));
+    // the mixed impl_cmp! / impl_cmp_bytes! pairs
+    chk("pathbuf_path", ba == *pb, ba.partial_cmp(pb), None);
+    chk("path_pathbuf", *pa == bb, pa.partial_cmp(&bb), None);
+    chk("pathbuf_refpath", ba == pb, ba.partial_cmp(&pb), None);
+    chk("refpath_pathbuf", pa == bb, (&pa).partial_cmp(&bb), None);
+    chk("cow_path", ca == *pb, ca.partial_cmp(pb), None);
+    chk("cow_refpath", ca == pb, ca.partial_cmp(&pb), None);
+    chk("cow_pathbuf", ca == bb, ca.partial_cmp(&bb), None);
+    chk("pathbuf_bytes", ba == *b_, ba.partial_cmp(b_), None);
+    chk("pathbuf_refbytes", ba == b_, ba.partial_cmp(&b_), None);
+    chk("pathbuf_vec", ba == b_.to_vec(), ba.partial_cmp(&b_.to_vec()), None);
+    chk("path_bytes", *pa == *b_, pa.partial_cmp(b_), None);
+    chk("path_refbytes", *pa == b_, pa.partial_cmp(&b_), None);
+    chk("path_vec", *pa == b_.to_vec(), pa.partial_cmp(&b_.to_vec()), None);
+    chk("refpath_vec", pa == b_.to_vec(), (&pa).partial_cmp(&b_.to_vec()), None);
+    let cowb: Cow<[u8]> = Cow::Borrowed(b_);
+    chk("pathbuf_cowbytes", ba == cowb, ba.partial_cmp(&cowb), None);
+    chk("path_cowbytes", *pa == cowb, pa.partial_cmp(&cowb), None);
+    (eq0, ord0)
+}
+
+fn pair_utf8<T>(a: &str, b_: &str, bad: &mut Vec<Val>, tag: &str, eq0: bool, ord0: core::cmp::Ordering)
+where
+    T: for<'enc> Utf8Encoding<'enc>,
+{
+    use core::cmp::Ordering;
+    let (pa, pb) = (Utf8Path::<T>::new(a), Utf8Path::<T>::new(b_));
+    let heq0 = feed(pa) == feed(pb);
+    let mut chk = |name: &str, eq: bool, ord: Option<Ordering>, heq: Option<bool>| {
+        if eq != eq0 || ord.map(|o| o != ord0).unwrap_or(false) || heq.map(|h| h != heq0).unwrap_or(false) {
+            bad.push(c(&format!("{}.{}", tag, name), vec![]));
+        }
+    };
+    chk("path", pa == pb, Some(pa.cmp(pb)), None);
+    let (ba, bb) = (pa.to_path_buf(), pb.to_path_buf());
+    chk("pathbuf", ba == bb, Some(ba.cmp(&bb)), Some(feed(&ba) == feed(&bb)));
+    chk("pathbuf_partial", !(ba != bb), ba.partial_cmp(&bb), None);
+    let (xa, xb): (Box<Utf8Path<T>>, Box<Utf8Path<T>>) = (Box::from(pa), Box::from(pb));
+    chk("box", xa == xb, Some(xa.cmp(&xb)), Some(feed(&xa) == feed(&xb)));
+    let (ra, rb): (Rc<Utf8Path<T>>, Rc<Utf8Path<T>>) = (Rc::from(pa), Rc::from(pb));
+    chk("rc", ra == rb, Some(ra.cmp(&rb)), None);
+    let (aa, ab): (Arc<Utf8Path<T>>, Arc<Utf8Path<T>>) = (Arc::from(pa), Arc::from(pb));
+    chk("arc", aa == ab, Some(aa.cmp(&ab)), None);
+    chk("pathbuf_path", ba == *pb, ba.partial_cmp(pb), None);
+    chk("path_pathbuf", *pa == bb, pa.partial_cmp(&bb), None);
+    chk("pathbuf_refpath", ba == pb, ba.partial_cmp(&pb), None);
+    chk("pathbuf_str", ba == *b_, ba.partial_cmp(b_), None);
+    chk("pathbuf_refstr", ba == b_, ba.partial_cmp(&b_), None);
+    chk("pathbuf_string", ba == b_.to_string(), ba.partial_cmp(&b_.to_string()), None);
+    chk("path_str", *pa == *b_, pa.partial_cmp(b_), None);
+    chk("path_string", *pa == b_.to_string(), pa.partial_cmp(&b_.to_string()), None);
+}
+
+/// c19p.<u|w> a b : equality, ordering and hash-equality of a pair are the same through every owned / boxed /
+/// reference-counted / Cow / runtime-typed form and through every mixed comparison the crate offers
+pub fn c19p(suffix: &str, args: &[Val]) -> Val {
+    let (a, b_) = (args[0].bytes(), args[1].bytes());
+    let mut bad = Vec::new();
+    let unix = suffix == "u";
+    let (eq0, ord0) = if unix { pair_byte::<UnixEncoding>(a, b_, &mut bad, "u") } else { pair_byte::<WindowsEncoding>(a, b_, &mut bad, "w") };
+    if unix {
+        let (e2, o2) = pair_byte::<PlatformEncoding>(a, b_, &mut bad, "p");
+        if e2 != eq0 || o2 != ord0 {
+            bad.push(c("platform_differs", vec![]));
+        }
+    }
+    let (ta, tb) = if unix { (TypedPath::unix(a), TypedPath::unix(b_)) } else { (TypedPath::windows(a), TypedPath::windows(b_)) };
+    if (ta == tb) != eq0 || ta.cmp(&tb) != ord0 || ta.partial_cmp(&tb) != Some(ord0) {
+        bad.push(c("typed_path", vec![]));
+    }
+    let (tba, tbb) = (ta.to_path_buf(), tb.to_path_buf());
+    if (tba == tbb) != eq0 || tba.cmp(&tbb) != ord0 || (ta == tbb) != eq0 || (tba == tb) != eq0 {
+        bad.push(c("typed_pathbuf", vec![]));
+    }
+    if let (Ok(sa), Ok(sb)) = (std::str::from_utf8(a), std::str::from_utf8(b_)) {
+        if unix {
+            pair_utf8::<Utf8UnixEncoding>(sa, sb, &mut bad, "u8", eq0, ord0);
+            pair_utf8::<Utf8PlatformEncoding>(sa, sb, &mut bad, "p8", eq0, ord0);
+        } else {
+            pair_utf8::<Utf8WindowsEncoding>(sa, sb, &mut bad, "w8", eq0, ord0);
+        }
+        let (ua, ub) = if unix { (Utf8TypedPath::unix(sa), Utf8TypedPath::unix(sb)) } else { (Utf8TypedPath::windows(sa), Utf8TypedPath::windows(sb)) };
+        let (uba, ubb) = (ua.to_path_buf(), ub.to_path_buf());
+        if (ua == ub) != eq0 || ua.cmp(&ub) != ord0 || (uba == ubb) != eq0 || uba.cmp(&ubb) != ord0 || (ua == ubb) != eq0 || (uba == ub) != eq0 {
+            bad.push(c("utf8_typed", vec![]));
+        }
+    }
+    let mut v = vec![Val::Bool(eq0), ord_val(ord0), Val::Bool(bad.is_empty())];
+    if !bad.is_empty() {
+        v.push(Val::L(bad));
+    }
+    c("c19p", v)
+}
